@@ -329,53 +329,92 @@ class C10(Check):
 
 
 def roundtrip_audit(tier):
-    """type-directed wire instance (every alias populated, two unknown members) per discovered model:
-    validate -> dump(by_alias, exclude_none) must reproduce it.  Bounded: one instance per model."""
+    """validate -> dump(by_alias, exclude_none) identity on the REAL classes of the tree under verification, one
+    type-directed wire instance per discovered model (every alias populated, unknown members incl. an underscore-prefixed
+    one, explicit nulls nested inside object-valued members), under BOTH backends (the fallback in a subprocess with
+    MCP_FORCE_FALLBACK=1).  Bounded: one instance per model and backend; a failing instance is a real failing run."""
+    import json as _json
+    import subprocess
+    import sys
+    r = roundtrip_native()
+    results = {"pydantic" if r.get("backend_is_pydantic") else "fallback": r}
+    if r.get("failure") is None:
+        src = os.path.join(os.environ.get("VERIF_REPO", "/repo"), "src")
+        code = ("import sys, json; sys.path[:0] = [%r, %r]; from checks.C10 import roundtrip_native; "
+                "print('RESULT ' + json.dumps(roundtrip_native(), default=str))" % (src, os.path.dirname(os.path.dirname(os.path.abspath(__file__)))))
+        env = dict(os.environ, MCP_FORCE_FALLBACK="1", VERIF_REPO=os.environ.get("VERIF_REPO", "/repo"))
+        try:
+            out = subprocess.run([sys.executable, "-c", code], env=env, capture_output=True, text=True, timeout=300).stdout
+            line = [l for l in out.splitlines() if l.startswith("RESULT ")]
+            if line:
+                r2 = _json.loads(line[-1][7:])
+                results["pydantic" if r2.get("backend_is_pydantic") else "fallback"] = r2
+        except Exception:      # noqa: BLE001 - the second backend could not be exercised: said in the bound
+            pass
+    n = sum(x.get("cases", 0) for x in results.values())
+    for backend, x in results.items():
+        f = x.get("failure")
+        if f:
+            return AuditResult("validate->dump identity per model", False, n, f"[{backend}] {f['model']}: member {f['member']!r} {f['sent']!r} became {f['got']!r}",
+                               violation=dict(input=dict(backend=backend, model=f["model"], wire=f["wire"]),
+                                              observed=f"after validate -> dump(by_alias=True, exclude_none=True): member {f['member']!r} is {f['got']!r}",
+                                              required=f"member {f['member']!r} == {f['sent']!r} (typed models are lossless views of the wire)"))
+    return AuditResult("validate->dump identity per model", True, n,
+                       bound="one generated wire instance per model: " + ", ".join(f"{b}: {x.get('cases', 0)} models ({x.get('skipped', 0)} skipped)"
+                                                                                  for b, x in sorted(results.items())))
+
+
+def roundtrip_native():
     import importlib
-    import typing
+    import logging
+    logging.disable(logging.CRITICAL)
     repo = Repo()
     models = collect_models(repo)
+    base = importlib.import_module("chuk_mcp.protocol.mcp_pydantic_base")
     n, skipped = 0, 0
     for name, m in sorted(models.items()):
         modname = m.ci.module.name
         try:
             cls = getattr(importlib.import_module(modname), name)
-        except Exception:
+        except Exception:      # noqa: BLE001
             skipped += 1
             continue
-        fields = getattr(cls, "model_fields", None)
+        fields = getattr(cls, "model_fields", None) or getattr(cls, "__model_fields__", None)
         if not fields:
             skipped += 1
             continue
         wire = {}
         ok = True
         for fname, f in fields.items():
-            key = f.alias or fname
-            ann = f.annotation
+            key = getattr(f, "alias", None) or fname
+            ann = getattr(f, "annotation", None)
             v = sample_for(ann)
             if v is NOSAMPLE:
-                if f.is_required():
+                req = f.is_required() if hasattr(f, "is_required") else getattr(f, "required", False)
+                if req:
                     ok = False
                     break
                 continue
+            if isinstance(v, dict):
+                v = dict(v, nested={"explicit_null": None, "deeper": {"n": None, "k": [None, 1]}})
             wire[key] = v
         if not ok:
             skipped += 1
             continue
-        wire["x-unknown"] = {"a": [1, None]}
+        wire["x-unknown"] = {"a": [1, None], "n": None, "o": {"m": None}}
         wire["_vendorExt"] = "keep"
         try:
             obj = cls.model_validate(wire)
-        except Exception:
+        except Exception:      # noqa: BLE001
             skipped += 1
             continue
         n += 1
         back = obj.model_dump(by_alias=True, exclude_none=True)
         for k, v in wire.items():
             if k not in back or back[k] != v:
-                return AuditResult("validate->dump identity per model", False, n, f"{name}: member {k!r} {v!r} became {back.get(k)!r}")
-    return AuditResult("validate->dump identity per model", True, n, bound=f"one generated wire instance for each of {n} models "
-                       f"({skipped} skipped: no type-directed sample for a required field)")
+                return dict(backend_is_pydantic=bool(getattr(base, "PYDANTIC_AVAILABLE", False)), cases=n, skipped=skipped,
+                            failure=dict(model=f"{modname}.{name}", member=k, sent=v, got=back.get(k, "<absent>"), wire=wire))
+    return dict(backend_is_pydantic=bool(getattr(base, "PYDANTIC_AVAILABLE", False)), cases=n, skipped=skipped, failure=None)
 
 
 NOSAMPLE = object()
